@@ -136,7 +136,7 @@ pub fn emit(line: &str) {
 /// Text alphabet: chars of every UTF-8 width.
 pub const W1: &[char] = &['a', 'b', 'c', 'x', 'y', 'z', '0', '9', ' ', '~', '\0', '\x7f'];
 pub const W2: &[char] = &['é', 'ß', 'ñ', '\u{80}', '\u{7ff}'];
-pub const W3: &[char] = &['€', '世', '\u{800}', '\u{ffff}', '\u{fffd}'];
+pub const W3: &[char] = &['€', '世', '\u{800}', '\u{ffff}', '\u{fffd}', '\u{feff}'];
 pub const W4: &[char] = &['𝄞', '🦀', '\u{10000}', '\u{10ffff}'];
 
 pub fn gen_char(r: &mut Rng) -> char {
